@@ -77,9 +77,8 @@ def sweep(handles, p, cur, restore=True):
     for h, s in handles:
         L.append(['select', p, 'cxx', h])
         L += [['name', p, 'cxx'], ['dim', p, 'cxx']]
-        if not CAT[s]['fixture']:
-            L += [['getp', p, 'cxx', k] for k in CAT[s]['pars']]
-            L += [['getv', p, 'cxx', k] for k in CAT[s]['vecs']]
+        L += [['getp', p, 'cxx', k] for k in CAT[s]['pars']]
+        L += [['getv', p, 'cxx', k] for k in CAT[s]['vecs']]
     if restore and cur is not None:
         L.append(['select', p, 'cxx', cur])
     return L
@@ -174,8 +173,6 @@ def gen_purity(rng, sol, apis=('cxx',), variant='exc', nev=10, noise=25, reverse
         other = rng.choice([n for n in NONFIX if n != sol])
         P = {}
         for k in e['pars']:                     # every parameter gets a non-default admissible value
-            if k in ('R_N', 'R_N2'):
-                continue
             P[k] = picker(rng, sol, k)
         if sol == 'sod_1d':
             P = {'Gamma': exact_double(rng, 1.2, 2.5), 'mu': exact_double(rng, 0.1, 0.4)}
@@ -332,6 +329,8 @@ def gen_registry_random(rng, variant='exc', steps=120, apis=('cxx',)):
     reg = {'d': {}, 'ld': {}}; cur = {'d': None, 'ld': None}
     S = []
     sols = rng.sample(NONFIX, 3) + [rng.choice(NONFIX)]
+    if rng.random() < 0.5:          # one of the self-test fixtures among them (their store is the same map)
+        sols.append(rng.choice([e['name'] for e in CATALOG if e['fixture']]))
     for _ in range(steps):
         p = rng.choice(['d', 'd', 'ld'])
         a = pick_api(rng, p, apis)
@@ -577,8 +576,6 @@ def gen_values(rng, sol, precs=('d', 'ld'), nassign=2, npts=3, evaluators=None, 
         vals = {k: pick(rng, sol, k) for k in e['pars']}
         if mix:
             vals = scale_mix(rng, sol, vals, ai)
-        if sol == 'euler_chem_1d':
-            vals['R_N2'] = vals['R_N'] / 2.0          # the two-species model has R_N2 = R_N/2 (DESIGN.md 4.5)
         data = None
         if sol == 'cp_normal':
             data = [exact_double(rng, -3.0, 3.0) for _ in range(rng.randint(1, 8))]
@@ -767,8 +764,6 @@ def gen_default_values(rng, sol, npts=4, variant='exc', evaluators=None):
     for p in ('d', 'ld'):
         S.append(['init', p, 'cxx', 'dflt', sol])
         S += [['getp', p, 'cxx', k] for k in e['pars']] + [['getv', p, 'cxx', k] for k in e['vecs']]   # binds the defaults
-        if sol == 'euler_chem_1d':      # the model has R_N2 = R_N/2; the default R_N2 = 0.4 is not (DESIGN.md section 7)
-            S.append(['setp', p, 'cxx', 'R_N2', hexf(defaults(sol)['R_N'] / 2.0)])
     for _ in range(npts):
         for fn, sig in caps:
             pt = value_point(rng, sol, sig)
